@@ -710,8 +710,40 @@ def lookup(run, model, rule="C06.lookup"):
             kinds.append("globals")
         else:
             kinds.append(s)
-    dom = flow.cfg.dominators()
     ordered = all(a[0].lineno < b[0].lineno for a, b in zip(apps, apps[1:]))
+    if not apps:
+        # the list is put together by concatenation: [args]-or-[] + [closure] + [globals]-or-[]
+        def pieces(t):
+            if t[0] == "op" and t[1] == "Add":
+                return [p_ for x in t[2] for p_ in pieces(x)]
+            return [t]
+
+        def elems(t):
+            if t[0] == "display" and t[1] == "list":
+                return list(t[2])
+            if t[0] == "op" and t[1] == "ifexp":
+                return elems(t[2][1]) + elems(t[2][2])
+            if t[0] == "phi":
+                return [e_ for x in t[1] for e_ in elems(x)]
+            return [t]
+
+        rets = [strip_sites(flow.term(n.ast, n)) for n in flow.cfg.nodes if n.kind == "return" and n.ast is not None]
+        if len(rets) == 1:
+            seq = []
+            for p_ in pieces(rets[0]):
+                for e_ in elems(p_):
+                    if e_ not in seq:
+                        seq.append(e_)
+            for a in seq:
+                s = show(a)
+                if a == ("param", "resolved_kwargs"):
+                    kinds.append("arguments")
+                elif a[0] == "display" and a[1] == "dict" or "dict()" in s:
+                    kinds.append("closure")
+                elif "__globals__" in s:
+                    kinds.append("globals")
+                else:
+                    kinds.append(s)
     run.check(kinds == ["arguments", "closure", "globals"] and ordered, rule, fi.qual, "lookup tables are appended in the order arguments, closure, globals", "the lookup tables are appended as %s" % kinds, fi.loc())
     # closure cells are read at the time of the violation (no caching across calls)
     src = src_of(fi.node)
